@@ -28,13 +28,13 @@ FUNCS = [
     "sedpack.io.dataset_base:DatasetBase._shard_info_iterator",
     "sedpack.io.utils:hash_checksums",
 ]
-HISTORIES = ["flat", "nested", "multi"]
+HISTORIES = ["flat", "nested", "multi", "big"]
 ALGS = [("sha256",), ("md5", "xxh64"), ("sha1", "sha1")]
 SHARD_KINDS = ["flip-first", "flip-middle", "flip-last", "truncate-1", "truncate-0", "extend", "delete", "swap-sibling",
                "same-size-other-content"]
 LIST_KINDS = ["append-whitespace", "flip-first", "flip-middle", "flip-last", "truncate-1", "delete", "rollback", "swap-sibling",
               "edit-digit"]
-DESC_KINDS = ["append-whitespace", "flip-middle", "rollback", "edit-digit"]
+DESC_KINDS = ["append-whitespace", "flip-middle", "rollback", "edit-digit", "drop-algorithms", "drop-algorithms-and-splits"]
 
 
 def _feed(dataset_filler, values, split):
@@ -47,7 +47,12 @@ def _feed(dataset_filler, values, split):
 def build(tmp: Path, history: str, algs):
     """Returns (dataset path, versions: {relpath: [older contents...]})."""
     from sedpack.io.dataset_filler import DatasetFiller
-    d = fillerlab.make_dataset(tmp / "ds", eps=2, hashes=algs)
+    attrs = None
+    if history == "big":
+        from sedpack.io import Attribute
+        # shard files larger than the 128 KiB read buffer of the digest loop (modifications far from the start matter too)
+        attrs = [Attribute(name="a", dtype="int32", shape=(2,)), Attribute(name="blob", dtype="int32", shape=(50_000,))]
+    d = fillerlab.make_dataset(tmp / "ds", eps=2, hashes=algs, attrs=attrs)
     versions: dict[str, list[bytes]] = {}
 
     def snap():
@@ -67,6 +72,13 @@ def build(tmp: Path, history: str, algs):
                 f.write_example(values=fillerlab.example(v), split="test")
                 v += 1
             snap()
+    elif history == "big":
+        import numpy as np
+        with d.filler() as f:
+            for _ in range(3):
+                f.write_example(values={"a": np.array([v, v], np.int32), "blob": np.arange(50_000, dtype=np.int32) + v}, split="train")
+                v += 1
+        snap()
     elif history == "nested":
         for rel in ("a", "a", "a/c", "b"):
             with DatasetFiller(d, relative_path_from_split=Path(rel)) as f:
@@ -132,6 +144,13 @@ def tamper(root: Path, rel: str, kind: str, siblings, versions):
         i = m.start(1)
         new = data[:i] + (b"7" if data[i:i + 1] != b"7" else b"8") + data[i + 1:]
         p.write_bytes(new)
+    elif kind in ("drop-algorithms", "drop-algorithms-and-splits"):
+        import json
+        doc = json.loads(data)
+        doc["dataset_structure"]["hash_checksum_algorithms"] = []
+        if kind.endswith("splits"):
+            doc["splits"] = {}
+        p.write_text(json.dumps(doc, indent=2))
     elif kind == "swap-sibling":
         sib = [s for s in siblings if s != rel and (root / s).read_bytes() != data]
         if not sib:
@@ -214,7 +233,7 @@ def run(tier, seed):
     common.import_sedpack()
     cs = [dict(history=h, algs=a) for h in HISTORIES for a in range(len(ALGS))]
     if tier == "quick":
-        cs = [c for c in cs if not (c["history"] != "nested" and c["algs"] == 2)]
+        cs = [c for c in cs if not (c["history"] != "nested" and c["algs"] == 2) and not (c["history"] == "big" and c["algs"] != 0)]
     st, per_cell, errors = par.run_cells(_cell, cs)
     viols, seen = [], set()
     for c in st.cex:
